@@ -127,9 +127,9 @@ func bit(id int) uint64 { return uint64(1) << uint(id) }
 // D and H describe two defects that a single client can already trigger; they
 // exist only to attribute the concurrent histories these defects spoil to one
 // signature each instead of to arbitrary symptoms:
-// D: an instantiate that fails with "name in use" releases the name (the owner
-// stays open, nameless), and closing a module releases the name it was
-// instantiated under whoever owns it now.
+// D: an instantiate that fails with "name in use" afterwards releases the name
+// (the owner stays open, nameless), and the first close of a module releases
+// the name it was instantiated under whoever owns it now.
 // H: HostModuleBuilder.Compile does not look at the closed flag.
 type relax struct{ M, R, D, H bool }
 
@@ -166,22 +166,27 @@ type pout struct {
 	id  int
 }
 
-func (s mstate) releaseName(rx relax, id, name int) mstate {
-	if rx.D {
-		if s.rel&bit(id) == 0 {
-			s.rel |= bit(id)
-			if name != anon {
-				s.names[name] = 0
-			}
-		}
-		return s
-	}
-	for n := range s.names {
-		if s.names[n] == uint8(id) {
-			s.names[n] = 0
+// release: a close of module id lets go of the name that id owns. In defect
+// model D the first close of id may instead let go of the name id was created
+// under, whoever owns it now (D only ever adds possibilities).
+func (s mstate) release(rx relax, id, name int) []mstate {
+	byID := s
+	for n := range byID.names {
+		if byID.names[n] == uint8(id) {
+			byID.names[n] = 0
 		}
 	}
-	return s
+	if !rx.D || s.rel&bit(id) != 0 {
+		return []mstate{byID}
+	}
+	byID.rel |= bit(id)
+	if name == anon || s.names[name] == 0 || s.names[name] == uint8(id) {
+		return []mstate{byID}
+	}
+	byName := s
+	byName.rel |= bit(id)
+	byName.names[name] = 0
+	return []mstate{byID, byName}
 }
 
 func (s mstate) emptied() mstate {
@@ -219,11 +224,15 @@ func step(rx relax, s mstate, in pin, out pout) []mstate {
 			s.open |= bit(out.id)
 			return []mstate{s}
 		case rDup:
-			ok := !s.closed && in.name != anon && s.names[in.name] != 0
-			if rx.D && ok {
-				s.names[in.name] = 0
+			if in.phase == 2 { // defect model D: the failed instantiate's cleanup releases the name, later in the same call
+				if in.name == anon || s.names[in.name] == 0 {
+					return []mstate{s}
+				}
+				t := s
+				t.names[in.name] = 0
+				return []mstate{s, t} // D only ever adds possibilities
 			}
-			return one(ok, s)
+			return one(!s.closed && in.name != anon && s.names[in.name] != 0, s)
 		case rClosedErr, rOtherErr:
 			return one(s.closing, s)
 		}
@@ -238,7 +247,7 @@ func step(rx relax, s mstate, in pin, out pout) []mstate {
 	case in.kind == kClose || in.kind == kCloseX:
 		if !rx.M {
 			s.open &^= bit(in.id)
-			return []mstate{s.releaseName(rx, in.id, in.name)}
+			return s.release(rx, in.id, in.name)
 		}
 		if in.phase != 2 {
 			s.open &^= bit(in.id)
@@ -249,11 +258,11 @@ func step(rx relax, s mstate, in pin, out pout) []mstate {
 			return nil
 		}
 		s.pendC[in.id]--
-		rel := s.releaseName(rx, in.id, in.name)
-		if rel == s || s.pendC[in.id] == 0 {
-			return []mstate{rel}
+		rels := s.release(rx, in.id, in.name)
+		if s.pendC[in.id] > 0 && rels[0] != s {
+			rels = append(rels, s) // or another close of this module, still running, releases it
 		}
-		return []mstate{rel, s} // or another close of this module, still running, releases it
+		return rels
 	case in.kind == kIsClosed:
 		isOpen := s.open&bit(in.id) != 0
 		if out.res == rFalse {
@@ -362,7 +371,7 @@ func buildOps(rx relax, h []lop) []porcupine.Operation {
 		if o.Res == rPanic {
 			continue
 		}
-		if (rx.M && (o.Kind == kClose || o.Kind == kCloseX)) || (rx.R && o.Kind == kRtClose) {
+		if (rx.M && (o.Kind == kClose || o.Kind == kCloseX)) || (rx.R && o.Kind == kRtClose) || (rx.D && o.Kind.isInst() && o.Res == rDup) {
 			in.phase = 2
 			ops = append(ops, porcupine.Operation{ClientId: o.Client, Input: in, Output: out, Call: o.Call, Return: ret})
 		}
